@@ -1,8 +1,10 @@
 import SymmModel.Driver.Main
+import SymmModel.Driver.SymH
+import SymmModel.Driver.HamH
 open Lean SymmModel.Driver
 
 /-- plug-in handlers of the self-contained property models are tried in order -/
-def handlers : List (String → Json → Option (D Json)) := [handleCore]
+def handlers : List (String → Json → Option (D Json)) := [handleCore, handleSym, handleHam]
 
 def handleLine (line : String) : Json :=
   match Json.parse line with
